@@ -195,6 +195,8 @@ class Report:
                 print(f"VIOLATION property={self.prop} replay={v.get('replay', '?')}")
                 print(f"  signature: {v.get('signature')}")
                 print(f"  detail: {str(v.get('detail'))[:600]}")
+            for m in self.inconclusive[:10]:
+                print(f'INCONCLUSIVE: {m}')
             return EXIT_VIOLATION
         if self.inconclusive:
             for m in self.inconclusive[:20]:
